@@ -128,9 +128,13 @@ def extra_probes(ctx, ver, strings, label):
             sc = im.cls[ver](s).scores()
         except Exception:  # noqa
             continue
-        for so in (False, True):
+        one = im.cls[ver](s)
+        for so in (False, True, False, True):
             for mi in (False, True):
-                js = im.cls[ver](s).as_json(sort=so, minimal=mi)
+                js0 = one.as_json(sort=so, minimal=mi)
+                js = dict(js0)
+                for kk in list(js0.keys()):          # the caller edits what it was given; the next call must not see it
+                    js0[kk] = 61
                 ctx.count()
                 for k, x in zip(JS, sc):
                     if k in js and x is not None and js[k] != x:
